@@ -632,7 +632,8 @@ class CallMixin:
             if not spec.assumed:
                 old, new = HeapView(st.heap), HeapView(s2.heap)
                 for entry in self.reg.guarantees:
-                    s2.assume(entry[1](old, new))
+                    # the callee's own segments keep the guarantee; rarely needed by the caller: second-stage hypothesis
+                    s2.heavy.append(entry[1](old, new))
         out = []
         ok = s2.copy()
         if qual == "_event.Signal.dispatch":
